@@ -415,4 +415,4 @@ package openapi3
 //@   tag C12
 // C13: the schema visit never touches the request the value was decoded from
 //@ extend func (*Schema).VisitJSON
-//@   preserves @C13 http.Request.Body, http.Request.GetBody, http.Request.ContentLength, openapi3filter.RequestValidationInput.*, openapi3filter.Options.*
+//@   preserves @C13 http.Request.*, url.URL.*, http.Header, openapi3filter.RequestValidationInput.*, openapi3filter.Options.*
